@@ -2,16 +2,24 @@
    processors/sshd/openssh_regex.go: a pattern is a sequence of items — literal byte, one
    byte of a class, greedy star over a class, capture open/close, ^ and $ (text anchors).
    `x+` is rendered as  IOne x; IStar x  (same matches, same captures).
+   IRune k is ONE RUNE of a class that holds the non-ASCII runes (`.`, \S, [^...]) where it does not stand under a
+   repetition of its own: Go's regexp consumes one UTF-8 decoding step there (unicode/utf8.DecodeRuneInString:
+   1-4 bytes; an invalid or truncated sequence is U+FFFD, one byte), the byte item IOne would consume one byte.
+   Membership is decided on the first byte: an ASCII byte by the class itself, a byte >= 0x80 by whether the class
+   holds the non-ASCII runes (all or none of them: go2v refuses other classes), which the byte class records as
+   holding all or none of the bytes 128..255.  tools/go2v emits IRune exactly for such a single item that is not
+   followed by a star over a class with the non-ASCII runes (which would consume the rest of the rune: x+).
 
    The matcher is the textbook backtracking matcher: greedy star tries the longest run
    first; [find] tries start offsets left to right.  For patterns without alternation and
    without nested repetition this is exactly the leftmost-first match RE2 returns.
 
-   Bytes, not runes: see DESIGN.md section 3 (every class used is a set of ASCII bytes, or a
-   complement of one, so all bytes >= 0x80 are either all in or all out). *)
+   Bytes, not runes: every class used is a set of ASCII bytes, or a complement of one, so all bytes >= 0x80 are
+   either all in or all out; when that makes byte-level matching equal to Go's rune-level matching is the
+   condition rune_safe of Model/RegexSpec.v, checked of every generated pattern (docs/R_NOTES.md). *)
 From Coq Require Import Ascii String List Bool Arith NArith Lia.
 Import ListNotations.
-From AM Require Import Lib.Bytes.
+From AM Require Import Lib.Bytes Lib.Utf8.
 
 Definition cls := list (N * N).      (* inclusive byte ranges (binary numbers: the check runs inside vm_compute) *)
 
@@ -28,7 +36,8 @@ Inductive item :=
 | IOpen (g : nat)
 | IClose (g : nat)
 | IBol
-| IEol.
+| IEol
+| IRune (k : cls).
 
 Definition lits (s : string) : list item := map ILit (s2l s).
 
@@ -71,6 +80,11 @@ Fixpoint m (its : list item) (pos : nat) (s : str) (ops : list (nat * str)) (cs 
       end
   | IBol :: r => if Nat.eqb pos 0 then m r pos s ops cs else None
   | IEol :: r => match s with [] => m r pos s ops cs | _ :: _ => None end
+  | IRune k :: r =>
+      match s with
+      | x :: _ => if in_cls k x then let w := snd (decode_rune s) in m r (pos + w) (skipn w s) ops cs else None
+      | [] => None
+      end
   end.
 
 Record rmatch := { m_start : nat; m_end : nat; m_caps : caps }.
